@@ -118,20 +118,693 @@ Lemma shutdown_conn_gone m c sd : res (SP (gone c)) never (shutdown_conn m c sd)
 Proof.
   eapply res_mono; [apply shutdown_conn_mstep| |auto]. intros m'. cbv beta.
   destruct (conns (ms m) !! c) as [cs|] eqn:E; [|intros ->; exact E].
-  intros H. unfold SP. eapply mstep_closed; [apply closed_gone|exact H|].
+  intros H. unfold SP. eapply (mstep_closed (gone c)); [apply closed_gone|exact H|].
   unfold sc_start, gone. cbv zeta. destruct (_ && _); cbn; apply lookup_delete.
 Qed.
 
-Lemma conn_gone s c sd f b s' o :
+Lemma conn_gone s c (sd : bool) f b s' o :
   step s (if sd then ShutdownConnection c else ConnectionShutdown c) f b = Done (s', o) ->
   conns s' !! c = None.
 Proof.
   intros H. apply step_inv in H as (m & m' & Hpre & Hs & -> & _).
   assert (m = push_remove (m_init s) c sd) as -> by (destruct sd; injection Hpre as <-; reflexivity).
-  destruct (fuel_for_S (ms (push_remove (m_init s) c sd))) as [fu ->].
-  rewrite settle_unfold in Hs. cbn in Hs.
+  destruct (fuel_for_S (ms (push_remove (m_init s) c sd))) as [fu Hfu]. rewrite Hfu in Hs.
+  rewrite settle_unfold in Hs.
+  change (settle_one (push_remove (m_init s) c sd))
+    with (Some (shutdown_conn (push_remove (m_init s) c sd <| mw; w_remove_conns := [] |>) c sd)) in Hs.
   pose proof (shutdown_conn_gone (push_remove (m_init s) c sd <| mw; w_remove_conns := [] |>) c sd) as H1.
-  unfold settle_one in Hs. cbn in Hs.
   destruct (shutdown_conn _ c sd) as [m1|m1|?]; [|contradiction|discriminate].
   exact (settle_done_closed _ (closed_gone c) (gone_delete c) fu m1 m' H1 Hs).
 Qed.
+
+(* ---------------------------------------------------------------- 3: nothing refers to a removed connection *)
+Definition end_of (e : chan_end) (ch : chan) : end_state :=
+  match e with ESender => ch_s ch | EReceiver => ch_r ch end.
+
+Definition nr_obj (c : conn) (s : state) : Prop := forall u o, objs s !! u = Some o -> o_owner o <> c.
+Definition nr_lis (c : conn) (s : state) : Prop := forall k l, listeners s !! k = Some l -> l_owner l <> c.
+Definition nr_end (c : conn) (e : chan_end) (s : state) : Prop :=
+  forall k ch cap, chans s !! k = Some ch -> end_of e ch <> Claimed c cap.
+Definition nr_ev (c : conn) (s : state) : Prop :=
+  forall k v e set, svcs s !! k = Some v -> s_events v !! e = Some set -> c ∉ set.
+Definition nr_all (c : conn) (s : state) : Prop := forall k v, svcs s !! k = Some v -> c ∉ s_all v.
+Definition nr_subs (c : conn) (s : state) : Prop := forall k v, svcs s !! k = Some v -> c ∉ s_subs v.
+
+Definition no_ref (c : conn) (s : state) : Prop :=
+  (forall u o, objs s !! u = Some o -> o_owner o <> c) /\
+  (forall k l, listeners s !! k = Some l -> l_owner l <> c) /\
+  (forall k ch cap, chans s !! k = Some ch -> ch_s ch <> Claimed c cap /\ ch_r ch <> Claimed c cap) /\
+  (forall k v, svcs s !! k = Some v ->
+     c ∉ s_all v /\ c ∉ s_subs v /\ forall e set, s_events v !! e = Some set -> c ∉ set).
+
+Lemma no_ref_parts c s :
+  no_ref c s <-> nr_obj c s /\ nr_lis c s /\ nr_end c ESender s /\ nr_end c EReceiver s /\
+                 nr_ev c s /\ nr_all c s /\ nr_subs c s.
+Proof.
+  unfold no_ref, nr_obj, nr_lis, nr_end, nr_ev, nr_all, nr_subs, end_of. split.
+  - intros (Ho & Hl & Hc & Hs). repeat split; eauto; try (intros; eapply Hc; eauto); intros; edestruct Hs as (? & ? & ?); eauto.
+  - intros (Ho & Hl & Hcs & Hcr & He & Ha & Hu). repeat split; eauto.
+Qed.
+
+(* per-key versions, each closed under the elementary changes *)
+Definition lis_ok (c : conn) (k : uuid) (s : state) : Prop :=
+  forall l, listeners s !! k = Some l -> l_owner l <> c.
+Definition objck_ok (c : conn) (ck : uuid) (s : state) : Prop :=
+  forall u o, objs s !! u = Some o -> o_cookie o = ck -> o_owner o <> c.
+Definition end_ok (c : conn) (e : chan_end) (k : uuid) (s : state) : Prop :=
+  forall ch cap, chans s !! k = Some ch -> end_of e ch <> Claimed c cap.
+Definition ev_ok (c : conn) (k : uuid * uuid) (e : N) (s : state) : Prop :=
+  forall v set, svcs s !! k = Some v -> s_events v !! e = Some set -> c ∉ set.
+Definition evs_ok (c : conn) (k : uuid * uuid) (s : state) : Prop := forall e, ev_ok c k e s.
+Definition all_ok (c : conn) (k : uuid * uuid) (s : state) : Prop :=
+  forall v, svcs s !! k = Some v -> c ∉ s_all v.
+Definition subs_ok (c : conn) (k : uuid * uuid) (s : state) : Prop :=
+  forall v, svcs s !! k = Some v -> c ∉ s_subs v.
+
+Definition ounique (O : gmap uuid obj) : Prop :=
+  forall u1 u2 o1 o2, O !! u1 = Some o1 -> O !! u2 = Some o2 -> o_cookie o1 = o_cookie o2 -> u1 = u2.
+Definition obj_unique (s : state) : Prop := ounique (objs s).
+Definition objs_sub (O : gmap uuid obj) (s : state) : Prop := objs s ⊆ O.
+Definition obj_none (u : uuid) (s : state) : Prop := objs s !! u = None.
+
+#[export] Instance chan_end_eq_dec : EqDecision chan_end.
+Proof. solve_decision. Defined.
+
+Lemma end_of_close_end e e' ch :
+  end_of e (close_end ch e') = if bool_decide (e = e') then Closed else end_of e ch.
+Proof. destruct e, e'; reflexivity. Qed.
+
+Lemma closed_lis_ok c k : closed (lis_ok c k).
+Proof.
+  intros s s' Hu HQ; destruct Hu; try exact HQ. unfold lis_ok in *. cbn. intros l Hl.
+  apply lookup_delete_Some in Hl as [_ Hl]. eauto.
+Qed.
+Lemma closed_objck_ok c ck : closed (objck_ok c ck).
+Proof.
+  intros s s' Hu HQ; destruct Hu; try exact HQ. unfold objck_ok in *. cbn. intros u' o Hl.
+  apply lookup_delete_Some in Hl as [_ Hl]. eauto.
+Qed.
+Lemma closed_end_ok c e k : closed (end_ok c e k).
+Proof.
+  intros s s' Hu HQ; destruct Hu; try exact HQ; unfold end_ok in *; cbn; intros ch' cap Hl.
+  - apply lookup_delete_Some in Hl as [_ Hl]. eauto.
+  - apply lookup_insert_Some in Hl as [[<- <-]|[_ Hl]]; [|eauto].
+    rewrite end_of_close_end. destruct (bool_decide _); [discriminate|eauto].
+Qed.
+Lemma closed_ev_ok c k e : closed (ev_ok c k e).
+Proof.
+  intros s s' Hu HQ; destruct Hu; try exact HQ; unfold ev_ok in *; cbn; intros v0 set Hl He.
+  - apply lookup_delete_Some in Hl as [_ Hl]. eauto.
+  - apply lookup_insert_Some in Hl as [[<- <-]|[_ Hl]]; [|eauto].
+    destruct H0 as (_ & _ & _ & _ & _ & _ & Hev). apply Hev in He.
+    destruct (s_events v !! e) as [set0|] eqn:E0; cbn in He; [|set_solver].
+    specialize (HQ _ _ H E0). set_solver.
+  - unfold sc_subs in Hl. cbn in Hl. rewrite lookup_fmap in Hl.
+    destruct (svcs s !! k) as [v1|] eqn:E1; cbn in Hl; [|discriminate]. injection Hl as <-. cbn in He. eauto.
+Qed.
+Lemma closed_all_ok c k : closed (all_ok c k).
+Proof.
+  intros s s' Hu HQ; destruct Hu; try exact HQ; unfold all_ok in *; cbn; intros v0 Hl.
+  - apply lookup_delete_Some in Hl as [_ Hl]. eauto.
+  - apply lookup_insert_Some in Hl as [[<- <-]|[_ Hl]]; [|eauto].
+    destruct H0 as (_ & _ & _ & _ & Ha & _). specialize (HQ _ H). set_solver.
+  - unfold sc_subs in Hl. cbn in Hl. rewrite lookup_fmap in Hl.
+    destruct (svcs s !! k) as [v1|] eqn:E1; cbn in Hl; [|discriminate]. injection Hl as <-. cbn. eauto.
+Qed.
+Lemma closed_subs_ok c k : closed (subs_ok c k).
+Proof.
+  intros s s' Hu HQ; destruct Hu; try exact HQ; unfold subs_ok in *; cbn; intros v0 Hl.
+  - apply lookup_delete_Some in Hl as [_ Hl]. eauto.
+  - apply lookup_insert_Some in Hl as [[<- <-]|[_ Hl]]; [|eauto].
+    destruct H0 as (_ & _ & _ & _ & _ & Hs & _). specialize (HQ _ H). set_solver.
+  - unfold sc_subs in Hl. cbn in Hl. rewrite lookup_fmap in Hl.
+    destruct (svcs s !! k) as [v1|] eqn:E1; cbn in Hl; [|discriminate]. injection Hl as <-. cbn.
+    specialize (HQ _ eq_refl). set_solver.
+Qed.
+Lemma closed_obj_unique : closed obj_unique.
+Proof.
+  intros s s' Hu HQ; destruct Hu; try exact HQ. unfold obj_unique, ounique in *. cbn.
+  intros u1 u2 o1 o2 H1 H2. apply lookup_delete_Some in H1 as [_ H1]. apply lookup_delete_Some in H2 as [_ H2]. eauto.
+Qed.
+Lemma closed_objs_sub O : closed (objs_sub O).
+Proof.
+  intros s s' Hu HQ; destruct Hu; try exact HQ. unfold objs_sub in *. cbn.
+  etrans; [apply delete_subseteq|exact HQ].
+Qed.
+Lemma closed_obj_none u : closed (obj_none u).
+Proof.
+  intros s s' Hu HQ; destruct Hu; try exact HQ. unfold obj_none in *. cbn.
+  destruct (decide (u0 = u)) as [->|]; [apply lookup_delete|by rewrite lookup_delete_ne].
+Qed.
+
+Lemma closed_forall {K} (P : K -> state -> Prop) : (forall k, closed (P k)) -> closed (fun s => forall k, P k s).
+Proof. intros HP s s' Hu H k. eapply HP; eauto. Qed.
+Lemma closed_and (P Q : state -> Prop) : closed P -> closed Q -> closed (fun s => P s /\ Q s).
+Proof. intros HP HQ s s' Hu [H1 H2]. split; [eapply HP|eapply HQ]; eauto. Qed.
+
+(* ---------- loops that establish a per-key predicate for every key ---------- *)
+Lemma res_and (P P' : M -> Prop) o : res P never o -> res P' never o -> res (fun m => P m /\ P' m) never o.
+Proof. destruct o; cbn; auto. Qed.
+
+Lemma elem_filter {A} (f : A -> bool) l x : x ∈ List.filter f l <-> x ∈ l /\ f x = true.
+Proof. rewrite !elem_of_list_In. apply filter_In. Qed.
+
+Lemma loop_keys {K} `{EqDecision K} (P : K -> state -> Prop) (J : state -> Prop)
+    (f : M -> K -> outcome M) (l : list K) m :
+  (forall k, closed (P k)) -> closed J ->
+  (forall m k, res (mstep m) never (f m k)) ->
+  (forall m k, J (ms m) -> res (SP (P k)) never (f m k)) ->
+  J (ms m) -> (forall k, k ∉ l -> P k (ms m)) ->
+  res (fun m' => mstep m m' /\ forall k, P k (ms m')) never (foldO f l m).
+Proof.
+  intros HP HJ Hstep Hest HJm Hinit.
+  assert (res ((fun rem m' => mstep m m' /\ forall k, k ∉ rem -> P k (ms m')) []) never (foldO f l m)) as H0.
+  { apply (foldO_res_ix (fun rem m' => mstep m m' /\ forall k, k ∉ rem -> P k (ms m'))).
+    - intros m' x r [Hm' Hr].
+      assert (J (ms m')) as HJ' by (eapply (mstep_closed J); eauto).
+      eapply res_mono; [apply (res_and _ _ _ (Hstep m' x) (Hest m' x HJ'))| |auto].
+      intros m'' [Hs Hx]. split; [eapply m_trans; eauto|].
+      intros k Hk. destruct (decide (k = x)) as [->|Hne]; [exact Hx|].
+      eapply (mstep_closed (P k)); [apply HP|exact Hs|]. apply Hr. rewrite elem_of_cons. tauto.
+    - split; [apply m_refl|exact Hinit]. }
+  eapply res_mono; [exact H0| |auto].
+  intros m' [Hm' Hall]. split; [exact Hm'|]. intros k. apply Hall. apply not_elem_of_nil.
+Qed.
+
+Lemma loop_keys_l {K} `{EqDecision K} (P : K -> state -> Prop) (f : M -> K -> M) (l : list K) m :
+  (forall k, closed (P k)) ->
+  (forall m k, mstep m (f m k)) ->
+  (forall m k, P k (ms (f m k))) ->
+  (forall k, k ∉ l -> P k (ms m)) ->
+  mstep m (foldl f m l) /\ forall k, P k (ms (foldl f m l)).
+Proof.
+  intros HP Hstep Hest. revert m. induction l as [|x l IH]; intros m Hinit; cbn.
+  - split; [apply m_refl|]. intros k. apply Hinit, not_elem_of_nil.
+  - destruct (IH (f m x)) as [H1 H2].
+    + intros k Hk. destruct (decide (k = x)) as [->|Hne]; [apply Hest|].
+      eapply (mstep_closed (P k)); [apply HP|apply Hstep|]. apply Hinit. rewrite elem_of_cons. tauto.
+    + split; [eapply m_trans; [apply Hstep|exact H1]|exact H2].
+Qed.
+
+(* ---------- what each phase of shutdown_conn establishes ---------- *)
+Lemma remove_listener_est c m k : lis_ok c k (ms (remove_listener m k)).
+Proof.
+  unfold remove_listener, lis_ok. destruct (listeners (ms m) !! k) eqn:E; cbn; intros l' Hl.
+  - rewrite lookup_delete in Hl. discriminate.
+  - congruence.
+Qed.
+
+Lemma remove_object_est c m ck :
+  obj_unique (ms m) -> res (SP (objck_ok c ck)) never (remove_object m ck).
+Proof.
+  intros Hu. destruct (obj_by_cookie (ms m) ck) as [[u o]|] eqn:E.
+  - eapply res_mono; [apply (remove_object_mstep' _ _ _ _ E)| |auto].
+    intros m' Hm'. unfold SP, objck_ok. intros u' o' Hl Hck _.
+    apply obj_by_cookie_Some in E as [E Eck].
+    assert (objs_sub (objs (ms m)) (ms m')) as Hsub.
+    { eapply (mstep_closed (objs_sub (objs (ms m)))); [apply closed_objs_sub|exact Hm'|]. unfold objs_sub. cbn. apply delete_subseteq. }
+    assert (obj_none u (ms m')) as Hnone.
+    { eapply (mstep_closed (obj_none u)); [apply closed_obj_none|exact Hm'|]. unfold obj_none. cbn. apply lookup_delete. }
+    pose proof (lookup_weaken _ _ _ _ Hl Hsub) as Hl0.
+    assert (u' = u) as -> by (eapply Hu; eauto; congruence).
+    unfold obj_none in Hnone. congruence.
+  - unfold remove_object. rewrite E. cbn. unfold SP, objck_ok. intros u o Hl Hck _.
+    eapply obj_by_cookie_None; eauto.
+Qed.
+
+Lemma sc_ev_inner_est c k owner m e : ev_ok c k e (ms (sc_ev_inner c k owner m e)).
+Proof.
+  unfold sc_ev_inner, ev_ok. destruct (svcs (ms m) !! k) as [v|] eqn:E; [|intros; congruence].
+  cbv zeta. destruct (bool_decide _); cbn; intros v' set Hl He;
+    rewrite lookup_insert in Hl; injection Hl as <-; cbn in He.
+  - rewrite lookup_delete in He. discriminate.
+  - rewrite lookup_insert in He. injection He as <-. set_solver.
+Qed.
+
+Lemma sc_ev_est c m k : res (SP (evs_ok c k)) never (sc_ev c m k).
+Proof.
+  unfold sc_ev. destruct (svcs (ms m) !! k) as [v|] eqn:E.
+  2:{ cbn. unfold SP, evs_ok, ev_ok. intros; congruence. }
+  destruct (owner_of_svc _ _) as [owner|]; [|exact I]. cbn [res]. cbv zeta.
+  unfold SP, evs_ok. apply (loop_keys_l (ev_ok c k)).
+  - intros. apply closed_ev_ok.
+  - intros. apply sc_ev_inner_mstep.
+  - intros. apply sc_ev_inner_est.
+  - intros e He v' set Hl Hs Hin. rewrite E in Hl. injection Hl as <-. apply He.
+    apply elem_of_list_fmap. exists (e, set). split; [reflexivity|].
+    apply elem_filter. split; [by apply elem_of_map_to_list|]. by apply bool_decide_eq_true.
+Qed.
+
+Lemma sc_all_est c m k : res (SP (all_ok c k)) never (sc_all c m k).
+Proof.
+  unfold sc_all, SP, all_ok. destruct (svcs (ms m) !! k) as [v|] eqn:E.
+  2:{ cbn. intros; congruence. }
+  destruct (owner_of_svc _ _) as [owner|]; [|exact I].
+  destruct (bool_decide (c ∈ s_all v)) eqn:Ein.
+  - cbn [res]. cbv zeta. destruct (bool_decide (s_all v ∖ {[c]} = ∅)); cbn; intros v' Hl;
+      rewrite lookup_insert in Hl; injection Hl as <-; cbn; set_solver.
+  - cbn. intros v' Hl. rewrite E in Hl. injection Hl as <-. by apply bool_decide_eq_false in Ein.
+Qed.
+
+Lemma sc_subs_est c s k : subs_ok c k (sc_subs c s).
+Proof.
+  unfold subs_ok, sc_subs. cbn. intros v Hl. rewrite lookup_fmap in Hl.
+  destruct (svcs s !! k); cbn in Hl; [|discriminate]. injection Hl as <-. cbn. set_solver.
+Qed.
+
+Lemma sc_end_est c e m k : res (SP (end_ok c e k)) never (sc_end c e m k).
+Proof.
+  unfold sc_end. destruct (chans (ms m) !! k) as [ch|] eqn:E.
+  2:{ cbn. unfold SP, end_ok. intros; congruence. }
+  fold (end_of e ch). destruct (end_of e ch) as [|o cap0|] eqn:Ee;
+    try (cbn; unfold SP, end_ok; intros ch' cap Hl; rewrite E in Hl; injection Hl as <-; congruence).
+  destruct (bool_decide (o = c)) eqn:Eo.
+  - eapply res_mono; [apply (remove_end_mstep' _ _ e _ E)| |auto].
+    intros m' [Hm'|Hm']; unfold SP; (eapply (mstep_closed (end_ok c e k)); [apply closed_end_ok|exact Hm'|]);
+      unfold end_ok; cbn; intros ch' cap Hl.
+    + rewrite lookup_delete in Hl. discriminate.
+    + rewrite lookup_insert in Hl. injection Hl as <-. rewrite end_of_close_end.
+      rewrite bool_decide_eq_true_2 by reflexivity. discriminate.
+  - cbn. unfold SP, end_ok. intros ch' cap Hl. rewrite E in Hl. injection Hl as <-.
+    apply bool_decide_eq_false in Eo. congruence.
+Qed.
+
+(* one loop of shutdown_conn: A is what holds so far, P what this loop adds *)
+Lemma phase {K} `{EqDecision K} (A : state -> Prop) (P : K -> state -> Prop)
+    (f : M -> K -> outcome M) (l : list K) m (k : M -> outcome M) (R : M -> Prop) :
+  closed A -> (forall k, closed (P k)) ->
+  (forall m k, res (mstep m) never (f m k)) ->
+  (forall m k, A (ms m) -> res (SP (P k)) never (f m k)) ->
+  A (ms m) -> (forall k, k ∉ l -> P k (ms m)) ->
+  (forall m', A (ms m') -> (forall k, P k (ms m')) -> res R never (k m')) ->
+  res R never (foldO f l m >>> k).
+Proof.
+  intros HA HP Hstep Hest HAm Hinit Hk.
+  eapply res_bind; [apply (loop_keys P A f l m HP HA Hstep Hest HAm Hinit)|].
+  intros m' [Hm' HPm']. apply Hk; [|exact HPm']. eapply (mstep_closed A); eauto.
+Qed.
+
+Lemma not_in_keys {A} (mp : gmap uuid A) k : k ∉ (fun p : uuid * A => p.1) <$> map_to_list mp -> mp !! k = None.
+Proof.
+  intros Hk. destruct (mp !! k) as [x|] eqn:E; [|reflexivity]. exfalso. apply Hk.
+  apply elem_of_list_fmap. exists (k, x). split; [reflexivity|by apply elem_of_map_to_list].
+Qed.
+Lemma not_in_keys2 {A} (mp : gmap (uuid * uuid) A) k :
+  k ∉ (fun p : uuid * uuid * A => p.1) <$> map_to_list mp -> mp !! k = None.
+Proof.
+  intros Hk. destruct (mp !! k) as [x|] eqn:E; [|reflexivity]. exfalso. apply Hk.
+  apply elem_of_list_fmap. exists (k, x). split; [reflexivity|by apply elem_of_map_to_list].
+Qed.
+
+Lemma shutdown_conn_no_ref m c sd cs :
+  conns (ms m) !! c = Some cs -> obj_unique (ms m) -> res (SP (no_ref c)) never (shutdown_conn m c sd).
+Proof.
+  intros E Hu. rewrite shutdown_conn_eq, E. cbv zeta. fold (sc_start m c cs sd).
+  assert (obj_unique (ms (sc_start m c cs sd))) as Hu1.
+  { unfold sc_start. cbv zeta. destruct (_ && _); exact Hu. }
+  generalize dependent (sc_start m c cs sd). intros m1 Hu1.
+  (* listeners *)
+  destruct (loop_keys_l (lis_ok c) remove_listener (sc_listeners c (ms m1)) m1) as [Hs2 Hl2].
+  { intros. apply closed_lis_ok. } { intros. apply remove_listener_mstep. }
+  { intros. apply remove_listener_est. }
+  { intros k Hk l Hl Ho. apply Hk. apply elem_of_list_fmap. exists (k, l). split; [reflexivity|].
+    apply elem_filter. split; [by apply elem_of_map_to_list|]. by apply bool_decide_eq_true. }
+  assert (obj_unique (ms (foldl remove_listener m1 (sc_listeners c (ms m1))))) as Hu2
+    by (eapply (mstep_closed obj_unique); [apply closed_obj_unique|exact Hs2|exact Hu1]).
+  generalize dependent (foldl remove_listener m1 (sc_listeners c (ms m1))). intros m2 _ Hl2 Hu2.
+  (* objects *)
+  apply (phase (fun s => obj_unique s /\ forall k, lis_ok c k s) (objck_ok c)).
+  { apply closed_and; [apply closed_obj_unique|apply closed_forall; intros; apply closed_lis_ok]. }
+  { intros. apply closed_objck_ok. } { intros. apply remove_object_mstep. }
+  { intros m' k [Hu' _]. by apply remove_object_est. }
+  { split; assumption. }
+  { intros ck Hk u o Hl Hck Ho. apply Hk. apply elem_of_list_fmap. exists (u, o). split; [cbn; congruence|].
+    apply elem_filter. split; [by apply elem_of_map_to_list|]. by apply bool_decide_eq_true. }
+  intros m3 [_ Hl3] Ho3.
+  (* event subscriptions *)
+  set (A3 := fun s => (forall k, lis_ok c k s) /\ forall ck, objck_ok c ck s).
+  assert (closed A3) as HA3.
+  { apply closed_and; apply closed_forall; intros; [apply closed_lis_ok|apply closed_objck_ok]. }
+  apply (phase A3 (evs_ok c)); try assumption.
+  { intros. apply closed_forall. intros. apply closed_ev_ok. } { intros. apply sc_ev_mstep. }
+  { intros. apply sc_ev_est. } { split; assumption. }
+  { intros k Hk e v set Hl. apply not_in_keys2 in Hk. congruence. }
+  intros m4 H4 He4.
+  (* all-events subscriptions *)
+  set (A4 := fun s => A3 s /\ forall k, evs_ok c k s).
+  assert (closed A4) as HA4.
+  { apply closed_and; [exact HA3|]. apply closed_forall. intros. apply closed_forall. intros. apply closed_ev_ok. }
+  apply (phase A4 (all_ok c)); try assumption.
+  { intros. apply closed_all_ok. } { intros. apply sc_all_mstep. }
+  { intros. apply sc_all_est. } { split; assumption. }
+  { intros k Hk v Hl. apply not_in_keys2 in Hk. congruence. }
+  intros m5 H5 Ha5. cbv beta.
+  (* service subscriptions, then the sender ends *)
+  set (A5 := fun s => A4 s /\ (forall k, all_ok c k s) /\ forall k, subs_ok c k s).
+  assert (closed A5) as HA5.
+  { apply closed_and; [exact HA4|]. apply closed_and; apply closed_forall; intros;
+      [apply closed_all_ok|apply closed_subs_ok]. }
+  match goal with |- res _ _ (foldO _ _ ?x >>> _) => set (m6 := x) end.
+  assert (A5 (ms m6)) as H6.
+  { assert (mstep m5 m6) as Hs by apply m_ms1, u_subs.
+    split; [eapply (mstep_closed A4); eauto|].
+    split; [eapply (mstep_closed (fun s => forall k, all_ok c k s)); eauto;
+            apply closed_forall; intros; apply closed_all_ok|].
+    intros k. apply sc_subs_est. }
+  clearbody m6.
+  set (L := chan_keys (ms m6)).
+  set (A6 := fun s => A5 s /\ forall k, k ∉ L -> end_ok c EReceiver k s).
+  assert (closed A6) as HA6.
+  { apply closed_and; [exact HA5|]. apply closed_forall. intros k s s' Hupd H Hk. eapply closed_end_ok; eauto. }
+  apply (phase A6 (end_ok c ESender)); try assumption.
+  { intros. apply closed_end_ok. } { intros. apply sc_end_mstep. }
+  { intros. apply sc_end_est. }
+  { split; [assumption|]. intros k Hk ch cap Hl. apply not_in_keys in Hk. congruence. }
+  { intros k Hk ch cap Hl. apply not_in_keys in Hk. congruence. }
+  intros m7 [H7 Hr7] Hs7.
+  (* the receiver ends *)
+  set (A7 := fun s => A5 s /\ forall k, end_ok c ESender k s).
+  assert (closed A7) as HA7.
+  { apply closed_and; [exact HA5|]. apply closed_forall. intros. apply closed_end_ok. }
+  apply (phase A7 (end_ok c EReceiver)); try assumption.
+  { intros. apply closed_end_ok. } { intros. apply sc_end_mstep. }
+  { intros. apply sc_end_est. } { split; assumption. }
+  intros m8 [[[[Hl8 Ho8] He8] [Ha8 Hu8]] Hs8] Hr8.
+  cbn [res]. unfold SP. cbn. rewrite sc_aborts_ms.
+  apply no_ref_parts. repeat split.
+  - intros u o Hl Ho. eapply Ho8; eauto.
+  - intros k l Hl. eapply Hl8; eauto.
+  - intros k ch cap Hl. eapply Hs8; eauto.
+  - intros k ch cap Hl. eapply Hr8; eauto.
+  - intros k v e set Hl Hev. eapply He8; eauto.
+  - intros k v Hl. eapply Ha8; eauto.
+  - intros k v Hl. eapply Hu8; eauto.
+Qed.
+
+Definition no_ref' (c : conn) (s : state) : Prop :=
+  ((forall k, lis_ok c k s) /\ (forall ck, objck_ok c ck s)) /\
+  ((forall k, evs_ok c k s) /\ (forall k, all_ok c k s) /\ (forall k, subs_ok c k s)) /\
+  (forall k, end_ok c ESender k s) /\ (forall k, end_ok c EReceiver k s).
+
+Lemma no_ref_iff c s : no_ref c s <-> no_ref' c s.
+Proof.
+  rewrite no_ref_parts. unfold no_ref', nr_obj, nr_lis, nr_end, nr_ev, nr_all, nr_subs,
+    lis_ok, objck_ok, evs_ok, ev_ok, all_ok, subs_ok, end_ok. split.
+  - intros (Ho & Hl & Hs & Hr & He & Ha & Hu). repeat split; eauto.
+  - intros ((Hl & Ho) & (He & Ha & Hu) & Hs & Hr). repeat split; eauto.
+Qed.
+
+Lemma closed_no_ref c : closed (no_ref c).
+Proof.
+  assert (closed (no_ref' c)) as H.
+  { repeat apply closed_and; apply closed_forall; intros;
+      first [apply closed_lis_ok|apply closed_objck_ok|apply closed_all_ok|apply closed_subs_ok
+            |apply closed_end_ok|apply closed_forall; intros; apply closed_ev_ok]. }
+  intros s s' Hu Hs. apply no_ref_iff. eapply H; [exact Hu|]. by apply no_ref_iff.
+Qed.
+
+Lemma release s c cs (sd : bool) f b s' o :
+  obj_unique s -> conns s !! c = Some cs ->
+  step s (if sd then ShutdownConnection c else ConnectionShutdown c) f b = Done (s', o) ->
+  no_ref c s'.
+Proof.
+  intros Hu E H. apply step_inv in H as (m & m' & Hpre & Hs & -> & _).
+  assert (m = push_remove (m_init s) c sd) as -> by (destruct sd; injection Hpre as <-; reflexivity).
+  destruct (fuel_for_S (ms (push_remove (m_init s) c sd))) as [fu Hfu]. rewrite Hfu in Hs.
+  rewrite settle_unfold in Hs.
+  change (settle_one (push_remove (m_init s) c sd))
+    with (Some (shutdown_conn (push_remove (m_init s) c sd <| mw; w_remove_conns := [] |>) c sd)) in Hs.
+  pose proof (shutdown_conn_no_ref (push_remove (m_init s) c sd <| mw; w_remove_conns := [] |>) c sd cs E Hu) as H1.
+  destruct (shutdown_conn _ c sd) as [m1|m1|?]; [|contradiction|discriminate].
+  refine (settle_done_closed _ (closed_no_ref c) _ fu m1 m' H1 Hs).
+  intros s0 c0 H0. exact H0.
+Qed.
+
+(* ---------- object cookies are pairwise distinct in every reachable state ---------- *)
+Lemma ounique_insert O u o :
+  ounique O -> O !! u = None -> (forall u' o', O !! u' = Some o' -> o_cookie o' <> o_cookie o) ->
+  ounique (<[u := o]> O).
+Proof.
+  intros HO Hu Hf u1 u2 o1 o2 H1 H2 Hc.
+  apply lookup_insert_Some in H1 as [[<- <-]|[Hn1 H1]]; apply lookup_insert_Some in H2 as [[<- <-]|[Hn2 H2]].
+  - reflexivity.
+  - exfalso. eapply Hf; eauto.
+  - exfalso. eapply Hf; eauto.
+  - eapply HO; eauto.
+Qed.
+
+Definition fresh_obj (fresh : uuid) (s : state) : Prop :=
+  forall u o, objs s !! u = Some o -> o_cookie o <> fresh.
+
+Ltac ou_leaf :=
+  first [ assumption
+        | apply (remove_listener_closed _ closed_obj_unique); assumption
+        | unfold obj_unique in *; cbn in *; assumption
+        | idtac ].
+Ltac ou_call :=
+  first [ apply res_never, (remove_object_closed _ closed_obj_unique)
+        | apply res_never, (remove_service_closed _ closed_obj_unique)
+        | apply res_never, (remove_end_closed _ closed_obj_unique) ]; cbn; ou_leaf.
+
+Lemma create_service_impl_ou m cn serial oc u i fresh :
+  obj_unique (ms m) -> res (SP obj_unique) (SP obj_unique) (create_service_impl m cn serial oc u i fresh).
+Proof. intros H. unfold create_service_impl. wp ou_leaf idtac. Qed.
+
+Lemma call_impl_ou m cn serial sc fn ver v bserial :
+  obj_unique (ms m) -> res (SP obj_unique) (SP obj_unique) (call_impl m cn serial sc fn ver v bserial).
+Proof. intros H. unfold call_impl. wp ou_leaf idtac. Qed.
+
+Ltac ou_call' :=
+  first [ apply create_service_impl_ou; cbn; ou_leaf | apply call_impl_ou; cbn; ou_leaf | ou_call ].
+
+Lemma handle_ou m cn x fresh bserial :
+  obj_unique (ms m) -> fresh_obj fresh (ms m) ->
+  res (SP obj_unique) (SP obj_unique) (handle m cn x fresh bserial).
+Proof.
+  intros H Hf. unfold handle. destruct (conns (ms m) !! cn) as [cs|] eqn:Ecn; [|exact H].
+  destruct x; try exact H; wp ou_leaf ou_call'.
+  (* CreateObject: the new object carries the fresh cookie *)
+  prep. unfold obj_unique. cbn. apply ounique_insert; [exact H|assumption|]. cbn. exact Hf.
+Qed.
+
+Lemma legal_fresh_obj s i : legal s i -> fresh_obj (i_fresh i) s.
+Proof.
+  intros (Hf & _) u o Hl Hc. apply Hf. unfold cookies_in_use. rewrite !elem_of_union. left. left. left.
+  apply elem_of_list_to_set, elem_of_list_fmap. exists (u, o). split; [by rewrite <- Hc|].
+  by apply elem_of_map_to_list.
+Qed.
+
+Lemma obj_unique_step s e fresh b s' o :
+  obj_unique s -> fresh_obj fresh s -> step s e fresh b = Done (s', o) -> obj_unique s'.
+Proof.
+  intros H Hf. apply step_sp; try (intros; exact H).
+  - intros fuel m Hm. apply settle_closed; [apply closed_obj_unique| |exact Hm]. intros s0 c0 Hs0. exact Hs0.
+  - intros c x _. by apply handle_ou.
+  - intros c _. unfold drop_task. destruct (conns s !! c); exact H.
+Qed.
+
+Lemma obj_unique_reachable s : reachable s -> obj_unique s.
+Proof.
+  induction 1 as [|s i s' o _ IH Hl Hs].
+  - intros u1 u2 o1 o2 H1. cbn in H1. rewrite lookup_empty in H1. discriminate.
+  - eapply obj_unique_step; [exact IH|by apply legal_fresh_obj|exact Hs].
+Qed.
+
+(* ---------------------------------------------------------------- 4: ShutdownBroker *)
+#[export] Instance out_shutdown_dec (x : out) (c : conn) : Decision (x = (c, Shutdown, None)).
+Proof.
+  destruct x as [[c' x] f]. destruct x; try (right; intros [=]; fail).
+  destruct f; [right; intros [=]|].
+  destruct (decide (c' = c)); [left; congruence|right; congruence].
+Defined.
+
+Definition nshut (c : conn) (l : list out) : nat :=
+  length (List.filter (fun x : out => bool_decide (x = (c, Shutdown, None))) l).
+
+Global Arguments nshut : simpl never.
+
+Lemma nshut_snoc c l y :
+  nshut c (l ++ [y]) = (nshut c l + if bool_decide (y = (c, Shutdown, None)) then 1 else 0)%nat.
+Proof.
+  unfold nshut. rewrite List.filter_app, app_length. cbn. destruct (bool_decide _); reflexivity.
+Qed.
+Lemma nshut_other c l c' x f : x <> Shutdown \/ c' <> c -> nshut c (l ++ [(c', x, f)]) = nshut c l.
+Proof.
+  intros H. rewrite nshut_snoc, bool_decide_eq_false_2; [lia|]. intros [=]. tauto.
+Qed.
+Lemma nshut_hit c l : nshut c (l ++ [(c, Shutdown, None)]) = S (nshut c l).
+Proof. rewrite nshut_snoc, bool_decide_eq_true_2 by reflexivity. lia. Qed.
+
+Lemma upd1_dom_conns s s' : upd1 s s' -> dom (conns s') = dom (conns s).
+Proof.
+  intros []; try reflexivity. unfold upd_call_done. cbn. apply dom_insert_lookup_L. eauto.
+Qed.
+Lemma upds_dom_conns s s' : upds s s' -> dom (conns s') = dom (conns s).
+Proof. induction 1 as [|s s1 s2 _ IH H]; [reflexivity|]. rewrite <- IH. by apply upd1_dom_conns. Qed.
+
+Section shutdown_broker.
+  Context (s0 : state) (c : conn).
+
+  (* survivors keep the liveness flag they had in s0 *)
+  Definition alive_same (s : state) : Prop :=
+    forall c' cs', conns s !! c' = Some cs' ->
+      exists cs0, conns s0 !! c' = Some cs0 /\ cs_alive cs' = cs_alive cs0.
+
+  Lemma closed_alive_same : closed alive_same.
+  Proof.
+    intros s s' Hu HQ; destruct Hu; try exact HQ. unfold alive_same, upd_call_done in *. cbn.
+    intros c' cs' Hl. apply lookup_insert_Some in Hl as [[<- <-]|[_ Hl]]; [|eauto]. cbn. eauto.
+  Qed.
+
+  (* the invariant of the work loop after ShutdownBroker in s0:
+     liveness flags are those of s0; only dead connections are queued with (c', false); every
+     connection still present is queued with (c', true); and if c was live in s0, it has received
+     no Shutdown while it is present and exactly one once it is gone *)
+  Definition K (m : M) : Prop :=
+    alive_same (ms m) /\
+    (forall c', (c', false) ∈ w_remove_conns (mw m) ->
+       exists cs0, conns s0 !! c' = Some cs0 /\ cs_alive cs0 = false) /\
+    (forall c', is_Some (conns (ms m) !! c') -> (c', true) ∈ w_remove_conns (mw m)) /\
+    (forall cs, conns s0 !! c = Some cs -> cs_alive cs = true ->
+       nshut c (mo m) = (if conns (ms m) !! c then 0 else 1)%nat).
+
+  Lemma K_ext m m' : ms m' = ms m -> mo m' = mo m -> w_remove_conns (mw m') = w_remove_conns (mw m) ->
+    K m -> K m'.
+  Proof. unfold K. intros -> -> ->. auto. Qed.
+
+  Lemma K_mstep m m' : mstep m m' -> K m -> K m'.
+  Proof.
+    induction 1 as [|m m1 m2 _ IH1 _ IH2|m m' Hu Ho Hw|m c' cs' x f Hl Ha Hx|m c' cs' Hl Ha]; auto.
+    - intros (K1 & K2 & K3 & K4). unfold K. rewrite Ho, Hw.
+      pose proof (upds_dom_conns _ _ Hu) as Hd.
+      assert (forall c', is_Some (conns (ms m') !! c') <-> is_Some (conns (ms m) !! c')) as Hd'.
+      { intros c'. rewrite <- !elem_of_dom, Hd. reflexivity. }
+      split; [eapply closed_upds; [apply closed_alive_same|exact Hu|exact K1]|].
+      split; [exact K2|]. split; [intros c' Hc'; apply K3, Hd', Hc'|].
+      intros cs Hc Halive. rewrite (K4 _ Hc Halive). specialize (Hd' c).
+      destruct (conns (ms m') !! c), (conns (ms m) !! c);
+        try reflexivity; exfalso; [apply (is_Some_None (A := cstate))|apply (is_Some_None (A := cstate))]; apply Hd'; eauto.
+    - intros (K1 & K2 & K3 & K4). unfold K. cbn. repeat split; try assumption.
+      intros cs Hc Halive. rewrite nshut_other by tauto. eauto.
+    - intros (K1 & K2 & K3 & K4). unfold K, push_remove. cbn. repeat split; try assumption.
+      + intros c'' Hin. apply elem_of_cons in Hin as [[= ->]|Hin]; [|eauto].
+        destruct (K1 _ _ Hl) as (cs0 & E0 & Ea). exists cs0. split; [exact E0|congruence].
+      + intros c'' Hc''. apply elem_of_cons. right. eauto.
+  Qed.
+
+  (* processing the head of the remove queue *)
+  Lemma K_shutdown_conn m c0 sd r :
+    K m -> w_remove_conns (mw m) = (c0, sd) :: r ->
+    res K never (shutdown_conn (m <| mw; w_remove_conns := r |>) c0 sd).
+  Proof.
+    intros (K1 & K2 & K3 & K4) Hq.
+    eapply res_mono; [apply shutdown_conn_mstep| |auto]. intros m'. cbv beta. cbn.
+    destruct (conns (ms m) !! c0) as [cs'|] eqn:E0.
+    - intros Hm'. eapply K_mstep; [exact Hm'|]. clear Hm' m'.
+      assert (forall c', is_Some (delete c0 (conns (ms m)) !! c') -> (c', true) ∈ r) as K3'.
+      { intros c' Hc'. destruct (decide (c' = c0)) as [->|Hne]; [rewrite lookup_delete in Hc'; by destruct Hc'|].
+        rewrite lookup_delete_ne in Hc' by done. specialize (K3 _ Hc'). rewrite Hq in K3.
+        apply elem_of_cons in K3 as [[= ? ?]|K3]; [congruence|exact K3]. }
+      assert (forall c', (c', false) ∈ r -> exists cs0, conns s0 !! c' = Some cs0 /\ cs_alive cs0 = false) as K2'.
+      { intros c' Hin. apply K2. rewrite Hq. apply elem_of_cons. by right. }
+      assert (alive_same (ms m <| conns ::= delete c0 |>)) as K1'.
+      { intros c' cs'' Hl. cbn in Hl. apply lookup_delete_Some in Hl as [_ Hl]. eauto. }
+      split; [unfold sc_start; cbv zeta; destruct (_ && _); exact K1'|].
+      split; [unfold sc_start; cbv zeta; destruct (_ && _); exact K2'|].
+      split; [unfold sc_start; cbv zeta; destruct (_ && _); exact K3'|].
+      intros cs Hc Halive. specialize (K4 _ Hc Halive).
+      destruct (decide (c0 = c)) as [->|Hne].
+      + (* the target: it is live, so it was queued with sd = true and gets its Shutdown *)
+        destruct (K1 _ _ E0) as (cs0 & E0' & Ea). rewrite Hc in E0'. injection E0' as <-.
+        assert (sd = true) as ->.
+        { destruct sd; [reflexivity|]. destruct (K2 c) as (cs0 & E0' & Ea').
+          - rewrite Hq. apply elem_of_cons. by left.
+          - rewrite Hc in E0'. injection E0' as <-. congruence. }
+        rewrite E0 in K4. unfold sc_start. cbv zeta. rewrite Ea, Halive. cbn [andb].
+        cbn. rewrite lookup_delete, nshut_hit, K4. reflexivity.
+      + unfold sc_start. cbv zeta. destruct (sd && cs_alive cs'); cbn;
+          rewrite ?lookup_delete_ne by done; rewrite ?nshut_other by tauto; exact K4.
+    - intros ->. unfold K. cbn. repeat split; try assumption.
+      + intros c' Hin. apply K2. rewrite Hq. apply elem_of_cons. by right.
+      + intros c' Hc'. specialize (K3 _ Hc'). rewrite Hq in K3.
+        apply elem_of_cons in K3 as [[= -> ?]|K3]; [|exact K3]. rewrite E0 in Hc'. by destruct Hc'.
+  Qed.
+
+  Lemma K_settle_one m :
+    K m -> match settle_one m with Some o => res K never o | None => work_empty (mw m) end.
+  Proof.
+    intros HK. apply settle_one_cases.
+    - intros c0 sd r Hq. by apply K_shutdown_conn.
+    - intros c0 s e r _ _. eapply res_mono; [apply notify_item_mstep; discriminate| |auto].
+      intros m' Hm'. eapply K_mstep; [exact Hm'|]. eapply K_ext; [..|exact HK]; reflexivity.
+    - intros c0 s r _ _. eapply res_mono; [apply notify_item_mstep; discriminate| |auto].
+      intros m' Hm'. eapply K_mstep; [exact Hm'|]. eapply K_ext; [..|exact HK]; reflexivity.
+    - intros c0 s r _ _. eapply res_mono; [apply notify_item_mstep; discriminate| |auto].
+      intros m' Hm'. eapply K_mstep; [exact Hm'|]. eapply K_ext; [..|exact HK]; reflexivity.
+    - intros serial c0 result r _ _. eapply res_mono; [apply rm_call_item_mstep| |auto].
+      intros m' Hm'. eapply K_mstep; [exact Hm'|]. eapply K_ext; [..|exact HK]; reflexivity.
+    - intros ev m1 Hq E1 E2 E3. eapply res_mono; [apply bus_mstep| |auto].
+      intros m' Hm'. eapply K_mstep; [exact Hm'|]. eapply K_ext; [..|exact HK]; congruence.
+    - intros b callee r _ _. eapply res_mono; [apply abort_call_mstep| |auto].
+      intros m' Hm'. eapply K_mstep; [exact Hm'|]. eapply K_ext; [..|exact HK]; reflexivity.
+    - auto.
+  Qed.
+
+  Lemma K_settle fuel m m' : K m -> settle fuel m = Done m' -> K m' /\ work_empty (mw m').
+  Proof.
+    revert m. induction fuel as [|fuel IH]; intros m HK; rewrite settle_unfold;
+      pose proof (K_settle_one m HK) as H1; destruct (settle_one m) as [[m1|m1|?]|]; cbn in H1;
+      try discriminate; try contradiction.
+    - intros [= <-]. auto.
+    - apply IH, H1.
+    - intros [= <-]. auto.
+  Qed.
+End shutdown_broker.
+
+Lemma push_remove_queue m c sd :
+  w_remove_conns (mw (push_remove m c sd)) = (c, sd) :: w_remove_conns (mw m).
+Proof. reflexivity. Qed.
+
+Lemma queue_all_queue s :
+  w_remove_conns (mw (queue_all s)) = (fun p : conn * cstate => (p.1, true)) <$> map_to_list (conns s).
+Proof.
+  unfold queue_all. induction (map_to_list (conns s)) as [|p l IH]; [reflexivity|].
+  cbn [foldr]. rewrite push_remove_queue, IH. reflexivity.
+Qed.
+
+Lemma K_init s c : K s c (queue_all s <| ms; shutdown_now := true |>).
+Proof.
+  unfold K. cbn. rewrite queue_all_ms, queue_all_mo, queue_all_queue. cbn. repeat split.
+  - intros c' cs' Hl. eauto.
+  - intros c' Hin. apply elem_of_list_fmap in Hin as ([c'' cs''] & [=] & _).
+  - intros c' [cs' Hl]. apply elem_of_list_fmap. exists (c', cs'). split; [reflexivity|].
+    by apply elem_of_map_to_list.
+  - intros cs Hc _. by rewrite Hc.
+Qed.
+
+Lemma shutdown_broker_K s c f b s' o :
+  step s ShutdownBroker f b = Done (s', o) ->
+  conns s' = ∅ /\
+  forall cs, conns s !! c = Some cs -> cs_alive cs = true -> nshut c o = 1%nat.
+Proof.
+  intros H. apply step_inv in H as (m & m' & Hpre & Hs & -> & ->). injection Hpre as <-.
+  destruct (K_settle s c _ _ _ (K_init s c) Hs) as [(K1 & K2 & K3 & K4) (Hq & _)].
+  assert (conns (ms m') = ∅) as He.
+  { apply map_empty. intros c'. destruct (conns (ms m') !! c') eqn:E; [|reflexivity].
+    exfalso. specialize (K3 c' (ex_intro _ _ E)). rewrite Hq in K3. by apply elem_of_nil in K3. }
+  split; [exact He|]. intros cs Hc Ha. rewrite (K4 _ Hc Ha), He, lookup_empty. reflexivity.
+Qed.
+
+Lemma shutdown_broker s f b s' o :
+  step s ShutdownBroker f b = Done (s', o) ->
+  shutdown_now s' = true /\ exits s' = true /\ conns s' = ∅.
+Proof.
+  intros H. pose proof (now_set _ _ _ _ _ H) as Hn.
+  destruct (shutdown_broker_K s 0 f b s' o H) as [He _].
+  split; [exact Hn|]. split; [|exact He]. apply exits_iff. by left.
+Qed.
+
+Lemma shutdown_broker_once s f b s' o c cs :
+  step s ShutdownBroker f b = Done (s', o) -> conns s !! c = Some cs -> cs_alive cs = true ->
+  length (List.filter (fun x : out => bool_decide (x = (c, Shutdown, None))) o) = 1%nat.
+Proof. intros H Hc Ha. destruct (shutdown_broker_K s c f b s' o H) as [_ H1]. exact (H1 cs Hc Ha). Qed.
